@@ -237,6 +237,110 @@ cases!(wincon_ansi_both_d, [(12, 7, 99), (13, 14, 99), (14, 5, 99), (15, 12, 99)
 cases!(wincon_ansi_fail_both, [(15, 0, 0), (15, 0, 1), (15, 0, 2), (15, 0, 3)]);
 cases!(wincon_ansi_fail_single, [(9, 16, 0), (9, 16, 1), (9, 16, 2), (16, 4, 0), (16, 4, 1), (16, 4, 2), (16, 16, 0)]);
 
+// ---- thorough tier: all 17 x 17 colour pairs x every failure point (concrete colours, one row
+// of the pair table per harness) ----
+macro_rules! row {
+    ($name:ident, $fg:expr, $fail:expr) => {
+        // 17 calls in a concrete loop (+1), the other bounds as above
+        #[cfg_attr(kani, kani::proof, kani::unwind(19))]
+        #[cfg_attr(not(kani), test)]
+        fn $name() {
+            let mut seen = 0u8;
+            let mut bg = 0u8;
+            while bg <= 16 {
+                seen |= colored($fg, bg, $fail);
+                bg += 1;
+            }
+            vk::vk_cover!(seen != 0, "the row ran to its end");
+        }
+    };
+}
+row!(wincon_ansi_row_ok_fg00, 0, 99);
+row!(wincon_ansi_row_ok_fg01, 1, 99);
+row!(wincon_ansi_row_ok_fg02, 2, 99);
+row!(wincon_ansi_row_ok_fg03, 3, 99);
+row!(wincon_ansi_row_ok_fg04, 4, 99);
+row!(wincon_ansi_row_ok_fg05, 5, 99);
+row!(wincon_ansi_row_ok_fg06, 6, 99);
+row!(wincon_ansi_row_ok_fg07, 7, 99);
+row!(wincon_ansi_row_ok_fg08, 8, 99);
+row!(wincon_ansi_row_ok_fg09, 9, 99);
+row!(wincon_ansi_row_ok_fg10, 10, 99);
+row!(wincon_ansi_row_ok_fg11, 11, 99);
+row!(wincon_ansi_row_ok_fg12, 12, 99);
+row!(wincon_ansi_row_ok_fg13, 13, 99);
+row!(wincon_ansi_row_ok_fg14, 14, 99);
+row!(wincon_ansi_row_ok_fg15, 15, 99);
+row!(wincon_ansi_row_ok_fg16, 16, 99);
+row!(wincon_ansi_row_f0_fg00, 0, 0);
+row!(wincon_ansi_row_f0_fg01, 1, 0);
+row!(wincon_ansi_row_f0_fg02, 2, 0);
+row!(wincon_ansi_row_f0_fg03, 3, 0);
+row!(wincon_ansi_row_f0_fg04, 4, 0);
+row!(wincon_ansi_row_f0_fg05, 5, 0);
+row!(wincon_ansi_row_f0_fg06, 6, 0);
+row!(wincon_ansi_row_f0_fg07, 7, 0);
+row!(wincon_ansi_row_f0_fg08, 8, 0);
+row!(wincon_ansi_row_f0_fg09, 9, 0);
+row!(wincon_ansi_row_f0_fg10, 10, 0);
+row!(wincon_ansi_row_f0_fg11, 11, 0);
+row!(wincon_ansi_row_f0_fg12, 12, 0);
+row!(wincon_ansi_row_f0_fg13, 13, 0);
+row!(wincon_ansi_row_f0_fg14, 14, 0);
+row!(wincon_ansi_row_f0_fg15, 15, 0);
+row!(wincon_ansi_row_f0_fg16, 16, 0);
+row!(wincon_ansi_row_f1_fg00, 0, 1);
+row!(wincon_ansi_row_f1_fg01, 1, 1);
+row!(wincon_ansi_row_f1_fg02, 2, 1);
+row!(wincon_ansi_row_f1_fg03, 3, 1);
+row!(wincon_ansi_row_f1_fg04, 4, 1);
+row!(wincon_ansi_row_f1_fg05, 5, 1);
+row!(wincon_ansi_row_f1_fg06, 6, 1);
+row!(wincon_ansi_row_f1_fg07, 7, 1);
+row!(wincon_ansi_row_f1_fg08, 8, 1);
+row!(wincon_ansi_row_f1_fg09, 9, 1);
+row!(wincon_ansi_row_f1_fg10, 10, 1);
+row!(wincon_ansi_row_f1_fg11, 11, 1);
+row!(wincon_ansi_row_f1_fg12, 12, 1);
+row!(wincon_ansi_row_f1_fg13, 13, 1);
+row!(wincon_ansi_row_f1_fg14, 14, 1);
+row!(wincon_ansi_row_f1_fg15, 15, 1);
+row!(wincon_ansi_row_f1_fg16, 16, 1);
+row!(wincon_ansi_row_f2_fg00, 0, 2);
+row!(wincon_ansi_row_f2_fg01, 1, 2);
+row!(wincon_ansi_row_f2_fg02, 2, 2);
+row!(wincon_ansi_row_f2_fg03, 3, 2);
+row!(wincon_ansi_row_f2_fg04, 4, 2);
+row!(wincon_ansi_row_f2_fg05, 5, 2);
+row!(wincon_ansi_row_f2_fg06, 6, 2);
+row!(wincon_ansi_row_f2_fg07, 7, 2);
+row!(wincon_ansi_row_f2_fg08, 8, 2);
+row!(wincon_ansi_row_f2_fg09, 9, 2);
+row!(wincon_ansi_row_f2_fg10, 10, 2);
+row!(wincon_ansi_row_f2_fg11, 11, 2);
+row!(wincon_ansi_row_f2_fg12, 12, 2);
+row!(wincon_ansi_row_f2_fg13, 13, 2);
+row!(wincon_ansi_row_f2_fg14, 14, 2);
+row!(wincon_ansi_row_f2_fg15, 15, 2);
+row!(wincon_ansi_row_f2_fg16, 16, 2);
+row!(wincon_ansi_row_f3_fg00, 0, 3);
+row!(wincon_ansi_row_f3_fg01, 1, 3);
+row!(wincon_ansi_row_f3_fg02, 2, 3);
+row!(wincon_ansi_row_f3_fg03, 3, 3);
+row!(wincon_ansi_row_f3_fg04, 4, 3);
+row!(wincon_ansi_row_f3_fg05, 5, 3);
+row!(wincon_ansi_row_f3_fg06, 6, 3);
+row!(wincon_ansi_row_f3_fg07, 7, 3);
+row!(wincon_ansi_row_f3_fg08, 8, 3);
+row!(wincon_ansi_row_f3_fg09, 9, 3);
+row!(wincon_ansi_row_f3_fg10, 10, 3);
+row!(wincon_ansi_row_f3_fg11, 11, 3);
+row!(wincon_ansi_row_f3_fg12, 12, 3);
+row!(wincon_ansi_row_f3_fg13, 13, 3);
+row!(wincon_ansi_row_f3_fg14, 14, 3);
+row!(wincon_ansi_row_f3_fg15, 15, 3);
+row!(wincon_ansi_row_f3_fg16, 16, 3);
+
 /// native only (replay build): every pair and failure point, default data — a plain exhaustive
 /// test of the harness logic itself against the real code
 #[cfg(not(kani))]
